@@ -380,9 +380,24 @@ fn at_end(sc: &Sc, main_finished: bool, default_schedule: bool) {
 			format!("{} runs for {} changes (+{initial} at start-up)", f.spawns.len(), f.changes.len()),
 		);
 	}
-	// P2: a change while the command is idle starts it (every mode)
+	// P2: a change while the command is idle starts it (every mode). "Idle" as watchexec can
+	// know it: the previous run's end has been collected (between the process ending and
+	// its status being collected the command may still count as running — which of the two
+	// a change at that very moment meets is a race the property does not settle)
+	let unobserved_end_at = |p: usize| {
+		let mut ended: Option<usize> = None;
+		for r in &f.log[..p] {
+			match &r.ev {
+				Ev::Exit { id, .. } => ended = Some(*id),
+				Ev::Reap { id, .. } | Ev::Drop { id } if ended == Some(*id) => ended = None,
+				Ev::Spawn { .. } => ended = None,
+				_ => {}
+			}
+		}
+		ended.is_some()
+	};
 	for c in &f.changes {
-		if running_at(&f.log, *c).is_none() && !f.spawns.iter().any(|(p, _)| p > c) {
+		if running_at(&f.log, *c).is_none() && !unobserved_end_at(*c) && !f.spawns.iter().any(|(p, _)| p > c) {
 			push("C05/change-while-idle-started-nothing".into(), format!("change at log {c} found the command idle, no run followed"));
 		}
 	}
